@@ -162,6 +162,10 @@ func (c01Engine) Run(sci interface{}, ctx *RunCtx) *Finding {
 		if r.refErr != nil && !r.refErr.External {
 			ctx.Count("runs_failed_by_data", 1)
 		}
+		if r.tooBig {
+			ctx.Count("skipped_reference_cost_bound", 1)
+			return nil
+		}
 		oracle, detail := compareExec(r)
 		if oracle == "" {
 			return nil
@@ -250,6 +254,9 @@ func (c01Plain) Run(sci interface{}, ctx *RunCtx) *Finding {
 	}()...)
 	for _, fl := range all {
 		r := execBoth(sc, pr.Src, prog, nil, fl, 0)
+		if r.tooBig {
+			continue
+		}
 		if o, _ := compareExec(r); o != "" {
 			return &Finding{Class: o}
 		}
